@@ -454,6 +454,8 @@ structure HS where
   items : List Item := []
   /-- observables for C15: the largest buffer seen after a drained chunk -/
   maxHeld : Nat := 0
+  /-- the same, counting only the moments at which the decoder is in the DATA state -/
+  maxHeldData : Nat := 0
 
 /-- handle one event; `none` continues the inner loop, `some r` leaves it -/
 inductive Step where
@@ -502,16 +504,18 @@ def feed (b : Bytes) (cfg : Cfg) (cs : Charset) (s : HS) (chunk : Bytes) : Step 
   let s := { s with dec := receive s.dec (some chunk) }
   match drain b cfg cs (s.dec.buf.length + 2) s with
   | .continue s' => .continue s'
-  | .break s' => .continue { s' with maxHeld := max s'.maxHeld s'.dec.buf.length }
+  | .break s' => .continue { s' with maxHeld := max s'.maxHeld s'.dec.buf.length,
+                                     maxHeldData := if s'.dec.st = .data then max s'.maxHeldData s'.dec.buf.length
+                                                    else s'.maxHeldData }
   | .raise r => .raise r
 
-def feedAll (b : Bytes) (cfg : Cfg) (cs : Charset) : HS → List Bytes → Res × Nat
-  | s, [] => (.ok s.items, s.maxHeld)
+def feedAll (b : Bytes) (cfg : Cfg) (cs : Charset) : HS → List Bytes → Res × Nat × Nat
+  | s, [] => (.ok s.items, s.maxHeld, s.maxHeldData)
   | s, c :: rest =>
     match feed b cfg cs s c with
     | .continue s' => feedAll b cfg cs s' rest
     | .break s' => feedAll b cfg cs s' rest
-    | .raise r => (r, s.maxHeld)
+    | .raise r => (r, s.maxHeld, s.maxHeldData)
 
 /-- `parse_stream(stream, boundary, charset, …)` (identically `parse_async_stream`) -/
 def parseStream (b : Bytes) (cfg : Cfg) (cs : Charset) (chunks : List Bytes) : Res :=
@@ -596,8 +600,8 @@ def runStream (args : List String) : String :=
   let cs := parseCharset ((args[1]?).getD "utf8")
   let cfg : Cfg := { maxParts := Wire.natArg args 2, maxMem := ((args[3]?).bind (·.toNat?)) }
   let chunks := parseChunks ((args[4]?).getD "_")
-  let (r, held) := feedAll b cfg cs {} chunks
-  r.render ++ " held=" ++ toString held
+  let (r, held, dheld) := feedAll b cfg cs {} chunks
+  r.render ++ " held=" ++ toString held ++ " dheld=" ++ toString dheld
 
 /-- codec-name normalisation as far as the harness uses it: utf8 / utf-8 / UTF-8 …;
 everything else (latin-1, unknown names) behaves like latin-1 in `safe_decode` -/
